@@ -310,5 +310,28 @@ def register(g):
         write('Session.lean', 'namespace Rj.Generated\nstructure SessionFeatures where\n  doerAcceptsOnce : Bool\n  doerOneLink : Bool\n  doerReadsKeyOnce : Bool\n  keyGeneratedPerLaunch : Bool\n  deriving DecidableEq, Repr\n'
               'def sessionFeatures : SessionFeatures := ⟨' + ', '.join(b(f[k]) for k in ('doerAcceptsOnce', 'doerOneLink', 'doerReadsKeyOnce', 'keyGeneratedPerLaunch')) + '⟩\nend Rj.Generated\n')
 
+    def link_socket():
+        """the TCP link and the channels behind it are used with plain blocking reads, writes and waits: no time-out, no deadline, no non-blocking mode anywhere in the source
+        (the link theorems of C14/C09 speak about a stream that delivers or ends; a read that gives up after a silence is neither)"""
+        import re as _re
+        hits, secs = [], []
+        for f in ['boss_launch', 'doer', 'encrypted_comms', 'boss_deploy', 'boss_frontend', 'boss_sync', 'main', 'memory_bound_channel']:
+            try:
+                src = strip_comments(read(f'src/{f}.rs'))
+            except FileNotFoundError:
+                continue
+            i = src.find('#[cfg(test)]')
+            if i >= 0: src = src[:i]
+            for m in _re.finditer(r'\b(set_read_timeout|set_write_timeout|set_nonblocking|connect_timeout|set_linger|set_ttl|recv_timeout|recv_deadline|send_timeout|send_deadline|wait_timeout|wait_timeout_while|park_timeout)\s*\(', src):
+                hits.append(f'{f}.rs:{m.group(1)}')
+            secs += [int(x) for x in _re.findall(r'Duration::from_secs\(\s*(\d+)\s*\)', src)] + [int(x) // 1000 for x in _re.findall(r'Duration::from_millis\(\s*(\d+)\s*\)', src)]
+        plain = not hits
+        if not plain: status['link-socket'] = 'socket options set: ' + ', '.join(sorted(set(hits)))
+        write('LinkSocket.lean', 'namespace Rj.Generated\n/-- no read/write time-out and no non-blocking mode is set on any socket -/\n'
+              f'def linkSocketPlain : Bool := {"true" if plain else "false"}\n'
+              f'def linkSocketOptions : List String := [{", ".join(lean_str(h) for h in sorted(set(hits)))}]\n'
+              f'/-- the durations (whole seconds) that occur in those files: candidates for a time-out to wait out when searching for a failing input -/\n'
+              f'def durationsSeen : List Nat := [{", ".join(str(x) for x in sorted(set(secs)))}]\nend Rj.Generated\n')
+
     g_ = g
-    return {'session': session, 'defaults': defaults, 'skeletons': skeletons, 'sites': sites, 'shutdown': shutdown, 'panic_sites': panic_sites, 'walker': walker, 'slash_table': slash_table}
+    return {'link_socket': link_socket, 'session': session, 'defaults': defaults, 'skeletons': skeletons, 'sites': sites, 'shutdown': shutdown, 'panic_sites': panic_sites, 'walker': walker, 'slash_table': slash_table}
